@@ -219,3 +219,46 @@ func VH_C02_fork() {
 	check("C02.fork.and_y", ay, func(o *vObj) bool { return vAnd(inBase(o), o.A != p4) })
 	check("C02.fork.base", base, inBase)
 }
+
+// VH_C02_or_then_and: And after Or.  The left operand of the And is a union
+// whose entries are not in index order (an Or concatenates two results); the
+// refinement is still the intersection with the new comparison, on the same
+// field as one of the Or operands or on another indexed field, and its Len
+// and (for the indexed case) its order follow.
+func VH_C02_or_then_and() {
+	db, _ := vhOpenDB(vhCfgs[0])
+	const n = 5
+	var objs []*vObj
+	for k := 1; k <= n; k++ {
+		o := &vObj{A: int64(k), S: string(rune('a' + k)), U: uint64(k)}
+		vAssert("C02.ota.insert", db.InsertOrUpdate(o) == nil)
+		objs = append(objs, o)
+	}
+	lo, hi, p := vInt64("lo"), vInt64("hi"), vInt64("p")
+	vAssume(vAnd(vAnd(lo >= 0, lo <= n+1), vAnd(vAnd(hi >= 0, hi <= n+1), vAnd(p >= 0, p <= n+1))))
+	op := vhOps[vChoice("_op", len(vhOps))]
+	var s *Search
+	if vChoice("order", 2) == 0 {
+		s = db.Search(&vObj{}, "A", ">", hi).Or("A", "<", lo)
+	} else {
+		s = db.Search(&vObj{}, "A", "<", lo).Or("A", ">", hi)
+	}
+	and := s.And("A", op, p)
+	vAssert("C02.ota.ok", and.Err() == nil)
+	got, err := and.Collect()
+	vAssert("C02.ota.collect", err == nil && and.Len() == len(got))
+	cnt := map[string]int{}
+	for _, g := range got {
+		cnt[g.UUID()]++
+	}
+	for _, o := range objs {
+		want := 0
+		if vAnd(vOr(o.A > hi, o.A < lo), vhCmp(op, o.A, p)) {
+			want = 1
+		}
+		vAssert("C02.ota.intersection", cnt[o.UUID()] == want)
+	}
+	for j := 1; j < len(got); j++ {
+		vAssert("C02.ota.order_of_last_field", got[j-1].(*vObj).A >= got[j].(*vObj).A)
+	}
+}
